@@ -4,6 +4,7 @@ import (
 	"context"
 	"encoding/json"
 	"fmt"
+	"runtime"
 	"sort"
 	"strings"
 	"sync"
@@ -571,6 +572,18 @@ type C12NotifCase struct {
 	Senders    int  `json:"senders"`    // client connections sending notifications
 	Notifs     int  `json:"notifs"`     // notifications per sender
 	Twin       bool `json:"twin,omitempty"` // a second server of the same kind lives in the process and gets handlers of its own registered at the same time
+	Churn      int  `json:"churn,omitempty"` // a further goroutine registers and unregisters "notifications/churn" this many times while the senders also send that method
+}
+
+func unregisterNotif(server interface{}, method string) {
+	switch s := server.(type) {
+	case *mcp.Server:
+		s.UnregisterNotificationHandler(method)
+	case *mcp.SSEServer:
+		s.UnregisterNotificationHandler(method)
+	case *mcp.StdioServer:
+		s.UnregisterNotificationHandler(method)
+	}
 }
 
 func registerNotif(server interface{}, method string, h mcp.ServerNotificationHandler) {
@@ -637,12 +650,35 @@ func execC12Notif(c C12NotifCase) *Failure {
 			}
 		}(r)
 	}
+	var churnRuns atomic.Int64
+	if c.Churn > 0 {
+		wg.Add(1)
+		go func() {
+			defer wg.Done()
+			for k := 0; k < c.Churn; k++ {
+				registerNotif(srv, "notifications/churn", func(ctx context.Context, n *mcp.JSONRPCNotification) error { churnRuns.Add(1); return nil })
+				if k%3 == 2 {
+					runtime.Gosched()
+				}
+				unregisterNotif(srv, "notifications/churn")
+			}
+		}()
+	}
 	sendErrs := make([]string, senders)
 	for i, conn := range conns {
 		wg.Add(1)
 		go func(i int, conn *Conn) {
 			defer wg.Done()
 			for k := 0; k < c.Notifs; k++ {
+				if c.Churn > 0 {
+					// whether a handler is registered at this instant is open; the notification is acknowledged either way
+					cb := []byte(`{"jsonrpc":"2.0","method":"notifications/churn"}`)
+					if c.Mode == ModeStdio {
+						conn.in.Write(append(cb, '\n'))
+					} else {
+						conn.Send(cb, "", 0)
+					}
+				}
 				body := []byte(fmt.Sprintf(`{"jsonrpc":"2.0","method":"notifications/stable","params":{"k":%d}}`, k))
 				switch c.Mode {
 				case ModeStdio:
@@ -728,7 +764,8 @@ func TestC12Notif(t *testing.T) {
 		Gen: func(t *rapid.T) C12NotifCase {
 			return C12NotifCase{Mode: rapid.SampledFrom([]Mode{ModeSJ, ModeLegacy, ModeLegacy, ModeStdio}).Draw(t, "mode"),
 				Registrars: rapid.IntRange(1, 6).Draw(t, "registrars"), Regs: rapid.IntRange(1, 40).Draw(t, "regs"),
-				Senders: rapid.IntRange(1, 3).Draw(t, "senders"), Notifs: rapid.IntRange(1, 60).Draw(t, "notifs"), Twin: rapid.IntRange(0, 2).Draw(t, "twin") == 0}
+				Senders: rapid.IntRange(1, 3).Draw(t, "senders"), Notifs: rapid.IntRange(1, 60).Draw(t, "notifs"), Twin: rapid.IntRange(0, 2).Draw(t, "twin") == 0,
+				Churn: rapid.SampledFrom([]int{0, 50, 400, 2000}).Draw(t, "churn")}
 		},
 		Exec: execC12Notif,
 		NT: func(c C12NotifCase) (bool, []string) {
